@@ -109,17 +109,25 @@ fn verify_match_rule(
             };
 
             for src_path in src_artifact_queue {
-                let src_base_path = src_path
-                    .value()
-                    .strip_prefix(&src_prefix)
-                    .unwrap_or_else(|| src_path.value());
+                // an artifact outside of the source prefix is not subject
+                // to this rule
+                let src_base_path =
+                    match src_path.value().strip_prefix(&src_prefix) {
+                        Some(base) => base,
+                        None => continue,
+                    };
                 let src_base_path =
                     VirtualTargetPath::new(src_base_path.to_string())
                         .expect("Unexpected VirtualTargetPath creation failed");
 
-                if let Err(e) = src_base_path.matches(pattern.value()) {
-                    warn!("match failed: {}", e.to_string());
-                    continue;
+                // neither is one that the pattern does not match
+                match src_base_path.matches(pattern.value()) {
+                    Ok(true) => {}
+                    Ok(false) => continue,
+                    Err(e) => {
+                        warn!("match failed: {}", e.to_string());
+                        continue;
+                    }
                 }
 
                 let dst_path = {
